@@ -492,3 +492,6 @@ def run(prog, R, tier):
     r_timeout(prog, R)
     r_shift(prog, R, tier)
     r_depth(prog, R)
+    # termination also needs: a request parked for a retry is always re-sent or completed (same rule as C14)
+    import C14
+    C14.r_requeue(prog, R, rid="R-C06-PARKED")
